@@ -220,6 +220,14 @@ func (c *Ctx) exactReads() {
 		}
 		instrs(fn, func(_ *ssa.BasicBlock, _ int, ins ssa.Instruction) {
 			ci, ok := ins.(ssa.CallInstruction)
+			if ok && strings.HasPrefix(k, "reader.") {
+				// "at most n" readers hand back whatever was there without an error when the input ends
+				// early: ReadN would return a short slice that every caller takes for n bytes
+				switch callee(ci) {
+				case "(*bytes.Buffer).ReadFrom", "io.Copy", "io.ReadAll", "io/ioutil.ReadAll", "io.CopyBuffer":
+					c.bad(k+":"+callee(ci), ins.Pos(), "a decoding primitive fills its buffer with %s, which treats the end of the input as success: a truncated field is returned as if it were complete; use io.CopyN / io.ReadFull", callee(ci))
+				}
+			}
 			if !ok || !isRead(ci) {
 				return
 			}
